@@ -114,3 +114,81 @@ open Eru.Cluster2.RI
 example : (runAlone 12 sB { op := .create 1 "n1" }).2.done = true ∧ (runAlone 12 sB { op := .removeNode "n1" }).2.done = true ∧
     (runAlone 12 sA { op := .addNode "n1" "p1", fault := some .p2 }).2.done = true := by decide
 end Eru.Props.C22
+
+namespace Eru.Props.C22
+open Eru.Cluster2.RI
+
+/-- **Schedules that avoid the open windows need no per-step hypothesis.**  If no thread is an
+AddNode and Create and RemoveNode do not run concurrently (any number of AddPod / RemovePod /
+RemoveNode / Remove threads, or of AddPod / RemovePod / Create / Remove threads, any arguments,
+any single faults other than RemoveNode's plugin call), then EVERY schedule is a `GoodRun`: each
+thread's check (`Chk`) stays valid until it acts because no other thread can invalidate it. -/
+theorem goodrun_of_safe (s : RState) (ts : List Th) (sched : List Nat) (h : RefInv s)
+    (hfresh : ∀ t ∈ ts, fresh t) (hsafe : Safe ts) : GoodRun ⟨s, ts⟩ sched :=
+  big_goodrun sched ⟨s, ts⟩ ⟨sysinv_init s ts h, hsafe, fun t ht => chk_fresh s t (hfresh t ht).1⟩
+
+/-- … hence the invariant holds at every quiescent point of every such concurrent history -/
+theorem refinv_safe_schedules (s : RState) (ts : List Th) (sched : List Nat) (h : RefInv s)
+    (hfresh : ∀ t ∈ ts, fresh t) (hsafe : Safe ts) (hq : quiescent (runSched ⟨s, ts⟩ sched) = true) :
+    RefInv (runSched ⟨s, ts⟩ sched).s :=
+  refinv_partial s ts sched h (goodrun_of_safe s ts sched h hfresh hsafe) hq
+
+/-- a concrete good run of two concurrent threads (non-vacuity of `refinv_partial`) -/
+example : GoodRun ⟨sB, [{ op := .create 1 "n1" }, { op := .removePod "p1" }]⟩ [0, 0, 1, 1, 0, 0, 1, 0, 0, 1, 1] :=
+  goodrun_of_safe sB _ _ sB_refinv
+    (fun t ht => by simp at ht; rcases ht with rfl | rfl <;> exact ⟨rfl, rfl⟩)
+    ⟨fun t ht => by simp at ht; rcases ht with rfl | rfl <;> rfl,
+     Or.inr (fun t ht => by simp at ht; rcases ht with rfl | rfl <;> rfl),
+     fun t ht => by simp at ht; rcases ht with rfl | rfl <;> (intro n hn; cases hn)⟩
+
+/-- a sequential history: every operation runs alone (at most 12 steps) from the state the
+previous one left -/
+def runHist (s : RState) : List (Op × Option PC) → RState
+  | [] => s
+  | (op, f) :: rest => runHist (runAlone 12 s { op := op, fault := f }).1 rest
+
+/-- every operation of the history finished (it always does when no lock is held by someone else) -/
+def AllDone (s : RState) : List (Op × Option PC) → Prop
+  | [] => True
+  | (op, f) :: rest => (runAlone 12 s { op := op, fault := f }).2.done = true ∧ AllDone (runAlone 12 s { op := op, fault := f }).1 rest
+
+/-- **Sequential histories** of any length over all six operations with single injected
+failures keep the invariant (after every operation, hence at the end) -/
+theorem refinv_history (ops : List (Op × Option PC)) : ∀ (s : RState), RefInv s →
+    (∀ p ∈ ops, FaultOK { op := p.1, fault := p.2 }) → AllDone s ops → RefInv (runHist s ops) := by
+  induction ops with
+  | nil => intro s h _ _; exact h
+  | cons p rest ih =>
+    intro s h hf hd
+    obtain ⟨op, f⟩ := p
+    exact ih _ (refinv_serial s op f 12 h (hf (op, f) List.mem_cons_self) hd.1)
+      (fun q hq => hf q (List.mem_cons_of_mem _ hq)) hd.2
+
+/-- the decidable form used by the oracle is equivalent to the invariant -/
+theorem refinv_of_refViolations_nil (s : RState) (h : refViolations s = []) : RefInv s := by
+  simp only [refViolations, List.append_eq_nil_iff, List.map_eq_nil_iff, List.filter_eq_nil_iff] at h
+  obtain ⟨⟨⟨h1, h2⟩, h3⟩, h4⟩ := h
+  refine ⟨?_, ?_, ?_, ?_⟩
+  · intro x hx; have := h1 x hx; simpa using this
+  · intro x hx; have := h2 x hx; simpa using this
+  · intro n hn; have := h3 n hn; simpa using this
+  · intro x hx; have := h4 x hx; simpa using this
+
+theorem refViolations_nil_iff (s : RState) : refViolations s = [] ↔ RefInv s :=
+  ⟨refinv_of_refViolations_nil s, refViolations_nil_of_refinv s⟩
+
+/-- (d) three operations: `withNodesLocked` does not re-read the node after locking. The second
+RemoveNode read node n1 before the first one removed it; AddNode re-adds the name; the second
+RemoveNode (stale node object) then deletes the NEW resource record; AddNode records the node:
+a node without resource information, and all three operations report success. Replayed on the
+real code. Thread 0 = AddNode n1 p1, threads 1, 2 = RemoveNode n1. -/
+def ts3 : List Th := [{ op := .addNode "n1" "p1" }, { op := .removeNode "n1" }, { op := .removeNode "n1" }]
+def sched3 : List Nat := [2, 1, 1, 1, 1, 1, 1, 0, 0, 2, 2, 2, 2, 2, 0]
+
+theorem counterexample_two_removenode_vs_addnode :
+    quiescent (runSched ⟨sB, ts3⟩ sched3) = true ∧
+    refViolations (runSched ⟨sB, ts3⟩ sched3).s = ["node-without-resource:n1"] ∧
+    (runSched ⟨sB, ts3⟩ sched3).ts.all (·.ok) = true := by
+  refine ⟨?_, ?_, ?_⟩ <;> decide
+
+end Eru.Props.C22
